@@ -481,6 +481,7 @@ func runC10(c *run.Ctx) {
 		}
 	}
 	injected += c10Menagerie(c)
+	injected += c10Unbound(c)
 	c.MinNontriv = injected / 2
 	c.Set("defects_injected", injected)
 }
@@ -695,3 +696,168 @@ func c10Executes(ec *execCase, sel model.Sel) bool {
 }
 
 var _ = fmt.Sprint
+
+// c10Unbound: containers that are not a plain object type. Under the Resolver and AnyResolver strategies an object
+// handed out for an interface-typed field is not bound to any Go type, so the interface ITSELF is the container its
+// selections are checked against; the introspection objects (__schema, __type and what hangs below) are containers of
+// ggql's own. Each document has exactly one defect; the error must name the offender, no resolver may be invoked with
+// the undeclared argument / for the unknown field, and the valid sibling next to it must carry the reference value.
+func c10Unbound(c *run.Ctx) int {
+	done := 0
+	n := c.N(60, 900)
+	holders := []string{"a1", "a2", "pets", "grid", "a1 { friend", "pets { pals", "a2 { rival"}
+	type dcase struct{ defect, sel, offender, noCall string }
+	dcs := []dcase{
+		{"undeclared-arg-alone", `zzbad: name(zz_undeclared: 1)`, "zz_undeclared", ""},
+		{"undeclared-arg-alone", `zzbad: friend(zz_undeclared: "x") { name }`, "zz_undeclared", ""},
+		{"unknown-field", `zzbad: nope_field_zz`, "nope_field_zz", "nope_field_zz"},
+		{"unknown-directive", `zzbad: name @nopeDirZz`, "nopeDirZz", ""},
+		{"misplaced-directive", `zzbad: name @deprecated`, "deprecated", ""},
+		{"undefined-inline-type", `... on NopeTypeZz { name }`, "NopeTypeZz", ""},
+	}
+	for i := 0; i < n && !c.TooMany(); i++ {
+		r := c.Rand(760000 + i)
+		s := gen.Menagerie(r)
+		sdl := s.SDL(model.SDLOpts{})
+		g := gen.Graph(r, s, gen.GraphOpts{NullProb: 6, PerType: 2})
+		kind := []string{"iface", "any"}[i%2]
+		h, err := back.Build(kind, s, sdl, g)
+		if err != nil {
+			c.Violation("c10-schema-rejected", map[string]interface{}{"sdl": sdl, "error": err.Error()})
+			continue
+		}
+		hd := holders[r.Intn(len(holders))]
+		dc := dcs[(i/2)%len(dcs)]
+		closing := " }"
+		if strings.Contains(hd, "{") {
+			closing = " } }"
+		}
+		mk := func(inner string) string { return "query Q { " + hd + " { " + inner + closing + " }" }
+		sib := "ok: name"
+		var text, base string
+		if r.Intn(2) == 0 {
+			text, base = mk(sib+" "+dc.sel), mk(sib)
+		} else {
+			text, base = mk(dc.sel+" "+sib), mk(sib)
+		}
+		out := Do(h, Request{Text: text, OpName: "Q", Entry: i}, nil)
+		good := Do(h, Request{Text: base, OpName: "Q", Entry: i}, nil)
+		done++
+		c.Eval("unbound|"+text+"|"+kind+fmt.Sprint(describeGraph(g)), true)
+		c.Bucket("defect", dc.defect)
+		c.Bucket("container", "interface-not-bound-to-go-type")
+		c.Bucket("backend", kind)
+		rep := func(diag string) {
+			c.Violation("c10-"+dc.defect, map[string]interface{}{"backend": kind, "defect": dc.defect, "container": "interface (objects not bound to a Go type)", "sdl": sdl,
+				"graph": describeGraph(g), "document": text, "offender": dc.offender, "diag": diag, "observed": out.Describe()})
+		}
+		if out.Panic != nil || good.Panic != nil {
+			rep("panic")
+			continue
+		}
+		if len(good.ErrPaths) > 0 || len(good.Msgs) > 0 {
+			rep("the document without the defect already fails: " + strings.Join(good.Msgs, "; "))
+			continue
+		}
+		// is the offending selection reached at all (a null holder, an empty list)?
+		reached := false
+		var walk func(v interface{})
+		walk = func(v interface{}) {
+			switch t := v.(type) {
+			case map[string]interface{}:
+				if _, has := t["ok"]; has {
+					reached = true
+				}
+				for _, e := range t {
+					walk(e)
+				}
+			case []interface{}:
+				for _, e := range t {
+					walk(e)
+				}
+			}
+		}
+		walk(good.Data)
+		if !reached {
+			c.Count("defect_not_reached_by_operation", 1)
+			continue
+		}
+		c.Count("unbound_interface_defects_reached", 1)
+		if len(out.Msgs) == 0 {
+			rep("no error reported for the defect")
+			continue
+		}
+		named := false
+		for _, m := range out.Msgs {
+			if strings.Contains(m, dc.offender) {
+				named = true
+			}
+		}
+		if !named && (dc.defect == "unknown-field" || dc.defect == "undeclared-arg-alone") {
+			rep("no error message names the offender")
+			continue
+		}
+		for _, cl := range out.Calls {
+			if dc.noCall != "" && cl.Key.Field == dc.noCall {
+				rep("the offending field's resolver was invoked")
+			}
+			if _, has := cl.Raw["zz_undeclared"]; has {
+				rep("a resolver was invoked with the undeclared argument")
+			}
+		}
+		if out.HasData && !ref.Match(stripBadKey(good.Data), stripBadKey(out.Data)) {
+			rep("valid sibling selections differ from the run without the offender: expected " + ref.Render(good.Data))
+		}
+	}
+	// ggql's own containers
+	intro := []struct{ text, offender string }{
+		{`{ __schema { queryType(zz_undeclared: 1) { name } } }`, "zz_undeclared"},
+		{`{ __schema(zz_undeclared: 1) { queryType { name } } }`, "zz_undeclared"},
+		{`{ __type(name: "Dog", zz_undeclared: 1) { name } }`, "zz_undeclared"},
+		{`{ __schema { types { name fields(includeDeprecated: true, zz_undeclared: 2) { name } } } }`, "zz_undeclared"},
+		{`{ __type(name: "Dog") { fields { name args(zz_undeclared: 2) { name } } } }`, "zz_undeclared"},
+		{`{ __type(name: "Animal") { possibleTypes(zz_undeclared: true) { name } } }`, "zz_undeclared"},
+		{`{ __schema { directives { name args { name(zz_undeclared: 1) } } } }`, "zz_undeclared"},
+		{`{ __schema { nope_field_zz } }`, "nope_field_zz"},
+		{`{ __schema { queryType { name nope_field_zz } } }`, "nope_field_zz"},
+		{`{ __type(name: "Dog") { fields { type { nope_field_zz } } } }`, "nope_field_zz"},
+		{`{ __type { name } }`, "name"},
+		{`{ __schema { types { enumValues(zz_undeclared: 1) { name } } } }`, "zz_undeclared"},
+		{`{ ant { __typename(zz_undeclared: 1) } }`, "zz_undeclared"},
+		{`{ __typename(zz_undeclared: 1) }`, "zz_undeclared"},
+	}
+	for i := 0; i < len(intro)*3; i++ {
+		ic := intro[i%len(intro)]
+		kind := []string{"iface", "any", "reflect"}[i/len(intro)]
+		r := c.Rand(770000 + i)
+		s := gen.Menagerie(r)
+		sdl := s.SDL(model.SDLOpts{})
+		g := gen.Graph(r, s, gen.GraphOpts{NullProb: 1, PerType: 2})
+		h, err := back.Build(kind, s, sdl, g)
+		if err != nil {
+			c.Violation("c10-schema-rejected", map[string]interface{}{"sdl": sdl, "error": err.Error()})
+			continue
+		}
+		out := Do(h, Request{Text: ic.text, Entry: i}, nil)
+		done++
+		c.Eval("intro|"+ic.text+"|"+kind, true)
+		c.Bucket("container", "introspection")
+		c.Bucket("backend", kind)
+		diag := ""
+		if dm, _ := out.Data.(map[string]interface{}); dm != nil && len(out.Msgs) == 0 && strings.HasPrefix(ic.text, "{ ant ") && dm["ant"] == nil {
+			continue // the holder is null in this graph: the selection below it is not reached
+		}
+		switch {
+		case out.Panic != nil:
+			diag = "panic"
+		case len(out.Msgs) == 0:
+			diag = "no error reported for the defect"
+		case !strings.Contains(strings.Join(out.Msgs, "\n"), ic.offender):
+			diag = "no error message names the offender"
+		}
+		if diag != "" {
+			c.Violation("c10-introspection-container", map[string]interface{}{"backend": kind, "document": ic.text, "offender": ic.offender, "diag": diag, "observed": out.Describe()})
+		}
+	}
+	return done
+}
